@@ -11,18 +11,18 @@ PROP = 'C08'
 V, C = 'LinePatternValidator', 'line-pattern'
 ABC = [97, 98, 99]
 CONFIGS = [Config(PROP, V, C, ' line-pattern="%s"' % PATTERNS[n][0], 'trim', ('pattern', n), ABC, ABC + [32])
-           for n in ('all-a', 'has-a', 'one-ab', 'ends-b', 'empty', 'a-then-b')]
+           for n in ('all-a', 'has-a', 'one-ab', 'ends-b', 'empty', 'a-then-b', 'maybe-a')]
 SPECS = [(0, 1, 0), (1, 2, 0), (0, 3, 1), (1, 0, 0), (0, 0, 0)]
 BOUNDS = {'quick': dict(nlines=3, per_cfg=50, validate=30), 'thorough': dict(nlines=5, per_cfg=900, validate=150)}
 
 
 def main(tier):
     return run_main(PROP, tier, CONFIGS, lambda c: SPECS, BOUNDS,
-                    assumptions=['patterns: ^a+$, a, ^[ab]$, ^.*b$, ^$, ^a*b+$; every other pattern is outside the claim',
+                    assumptions=['patterns: ^a+$, a, ^[ab]$, ^.*b$, ^$, ^a*b+$, ^a* (matches the empty string at the start of every line); every other pattern is outside the claim',
                                  'the regex engine is the reference model mirsym/rexmodel.py, not the regex crate',
                                  'keys over {a,b,c} with inner blanks; ASCII only',
                                  'tree-sitter / tag scanner replaced as in C10; verdict independent of the modified flags'],
-                    must_cover=['clean', 'reported', 'two violating blocks in one file', 'rule:all-a', 'rule:has-a', 'rule:one-ab', 'rule:ends-b', 'rule:empty', 'rule:a-then-b'],
+                    must_cover=['clean', 'reported', 'two violating blocks in one file', 'rule:all-a', 'rule:has-a', 'rule:one-ab', 'rule:ends-b', 'rule:empty', 'rule:a-then-b', 'rule:maybe-a'],
                     min_keys=1)
 
 
